@@ -61,9 +61,32 @@ theorem facts_ok : (fields.all (fieldOk ctxNames exceptions)) = true := by decid
 /-- ★ the lock-order graph extracted from the source is acyclic. -/
 theorem lock_order_acyclic : acyclic lockOrder = true := by decide
 
-/-- the only blocking operation performed while a lock is held (a channel send under the shared
-`closeLock` of SendSideBWE; its liveness is C16's `write_never_stuck`). -/
+/-- blocking operations performed while a lock is held, and why each cannot deadlock.  Both happen
+under the `closeLock` of SendSideBWE, which the goroutines that are waited for never take. -/
+def allowedBlocking : List (Name × Name × String) := [
+  (nm! "gcc.delayController.updateDelayEstimate", nm! "gcc.SendSideBWE.closeLock", "chan send"),
+  (nm! "gcc.delayController.Close", nm! "gcc.SendSideBWE.closeLock", "wg.Wait")
+]
+
+/-- ★ no other blocking operation (channel send/receive outside a select with an escape, select
+without default, WaitGroup.Wait) happens while a lock is held (regenerated facts). -/
 theorem blocking_under_lock_known :
-    blockingUnderLock.all (fun b => b.2.2 == "chan send" && b.1 == "gcc.delayController.updateDelayEstimate") = true := by decide
+    blockingUnderLock.all (fun b => allowedBlocking.any (fun a => a.1 == b.1 && a.2.1 == b.2.1 && a.2.2 == b.2.2)) = true := by
+  decide +kernel
+
+/-- callbacks (func-typed struct fields) that are invoked while a lock is held.  A callback supplied
+by the application must never run under an interceptor lock (it may call back into the
+interceptor: self-deadlock); the ones listed are clocks, factories and the pool-return hook. -/
+def allowedCallbacks : List (Name × String) := [
+  (nm! "rtpbuffer.RetainablePacket.onRelease", "internal pool-return hook set by the packet factory; takes no interceptor lock"),
+  (nm! "gcc.rateController.now", "clock"),
+  (nm! "stats.Interceptor.now", "clock (SetNowFunc)"),
+  (nm! "pacing.Interceptor.pacerFactory", "factory invoked at construction time under the factory's own lock"),
+  (nm! "stats.Interceptor.RecorderFactory", "recorder factory invoked at bind time; the recorder is created, not called back into")
+]
+
+/-- ★ no other callback runs while a lock is held (regenerated facts). -/
+theorem no_user_callback_under_lock :
+    callbackUnderLock.all (fun c => allowedCallbacks.any (fun a => a.1 == c.2.1)) = true := by decide +kernel
 
 end Interceptor.Facts.C10
